@@ -896,7 +896,11 @@ class unreach (packet_base, unpack_new_adapter):
   def __str__ (self):
     s = ''.join(('[', 'u:', str(self.unused), ']'))
 
-    return _str_rest(s, self)
+    if self.next is None:
+      return s
+    if isinstance(self.next, bytes):
+      return s + "[%s bytes]" % (len(self.next),)
+    return s + str(self.next)
 
   def parse (self, raw):
     assert isinstance(raw, bytes)
